@@ -9,6 +9,7 @@ let table : (Stdlib.String.t * (z list -> z list)) list = [
   "m1c_fresh", m1c_fresh_entry;
   "m1s", m1s_entry;
   "c08rt", c08rt_entry;
+  "c11rt", c08rt_entry;
   "c18", c18_entry;
   "c18s", c18s_entry;
   "c03", c03_entry;
